@@ -66,6 +66,13 @@ TRANSPARENT = {
     "std::path::Path::to_owned": [0], "alloc::borrow::Cow::<'_, B>::into_owned": [0], "alloc::boxed::Box::<T>::new": [0],
     "std::fs::canonicalize": [0], "std::path::Path::canonicalize": [0],
     "std::path::Path::join": [0],            # x.join(rel) stays in x's tree
+    "std::os::unix::fs::MetadataExt::mode": [0], "std::os::unix::fs::PermissionsExt::mode": [0],
+    "std::os::unix::fs::MetadataExt::uid": [0], "std::os::unix::fs::MetadataExt::gid": [0],
+    "rustix::backend::fs::types::Mode::from_raw_mode": [0], "rustix::backend::fs::types::Mode::from_bits_retain": [0],
+    "rustix::backend::fs::types::Mode::from_bits_truncate": [0], "rustix::backend::fs::types::Mode::from_bits": [0],
+    "rustix::ugid::Uid::from_raw": [0], "rustix::ugid::Gid::from_raw": [0],
+    "rustix::ugid::Uid::from_raw_unchecked": [0], "rustix::ugid::Gid::from_raw_unchecked": [0],
+    "std::time::SystemTime::duration_since": [0], "core::time::Duration::as_secs": [0], "core::time::Duration::subsec_nanos": [0],
     "walkdir::WalkDir::new": [0], "walkdir::WalkDir::follow_links": [0], "walkdir::IntoIter::filter_entry": [0],
     # (the other builder methods configure the same walk of the same root)
     "walkdir::WalkDir::max_depth": [0], "walkdir::WalkDir::min_depth": [0], "walkdir::WalkDir::max_open": [0],
@@ -344,6 +351,12 @@ class Roles:
                                     if new_ != old_:
                                         self.frole[key_] = new_
                                         changed = True
+                        elif k == "agg" and rv.get("ak") == "adt" and rv.get("adt") not in fx.adts and \
+                                (rv.get("adt") or "").split("::")[0] not in ("core", "alloc", "std", "libxcp", "libfs", "xcp"):
+                            # an argument struct of a third-party API (`rustix::fs::Timestamps { last_access, .. }`):
+                            # it names the file its parts come from
+                            for o in rv["fields"]:
+                                r = join(r, self.operand_role(f, o))
                         elif k == "agg" and rv.get("ak") == "adt" and rv.get("adt") in (
                                 "core::option::Option", "core::result::Result", "core::ops::control_flow::ControlFlow",
                                 "alloc::borrow::Cow"):
@@ -377,6 +390,8 @@ class Roles:
                         for i in (TRANSPARENT.get(o) or TRANSPARENT.get(p)):
                             if i < len(args):
                                 r = join(r, self.operand_role(f, args[i]))
+                    elif (p or "").endswith(("::from_bits_retain", "::from_bits_truncate", "::bits")) and args:
+                        r = self.operand_role(f, args[0])          # bitflags wrappers around the same bits
                     elif o in PRODUCES:
                         r = PRODUCES[o]
                     elif tgt is not None:
